@@ -84,8 +84,24 @@ namespace C20
 def generatedNames (mf : ManifestFacts) : List String :=
   mf.examples.flatMap fun (_, name) => mf.cliNamePatterns.map fun (pre, suf) => mf.makeOutDir ++ "/" ++ pre ++ name ++ suf
 
+/-- the words of a target expression (`all(floo_test, axi_mesh)` ↦ all, floo_test, axi_mesh) -/
+def splitWords : List Char → List Char → List String
+  | [], cur => if cur.isEmpty then [] else [String.ofList cur.reverse]
+  | c :: cs, cur =>
+    if c.isAlphanum || c == '_' then splitWords cs (c :: cur)
+    else (if cur.isEmpty then [] else [String.ofList cur.reverse]) ++ splitWords cs []
+
+def targetWords (t : String) : List String := splitWords t.toList []
+
+/-- a generated file may only be listed under a target (fileset) that is named after the shipped example
+    description which emits a file of exactly that name -/
+def generatedFor (mf : ManifestFacts) (e : ManifestEntry) : Bool :=
+  mf.examples.any fun (_, name) =>
+    (targetWords e.target).contains name &&
+    mf.cliNamePatterns.any fun (pre, suf) => e.path == mf.makeOutDir ++ "/" ++ pre ++ name ++ suf
+
 def entryOk (mf : ManifestFacts) (e : ManifestEntry) : Bool :=
-  mf.tracked.contains e.path || (generatedNames mf).contains e.path
+  mf.tracked.contains e.path || generatedFor mf e
 
 /-- modules the generated networks instantiate -/
 def roots : List String := C11.templateUses.map (·.mod)
